@@ -35,11 +35,16 @@ def run_in_process(args, shard, nshards):
     ctx.classify = getattr(mod, "classify", None)
     ctx.rule = getattr(mod, "RULE", "")
     ctx.assumptions = list(getattr(mod, "ASSUMPTIONS", []))
+    from . import reach
+    reaching = reach.start(args.prop) if os.environ.get("VERIF_REACH", "1") != "0" else False
     try:
         mod.run(ctx)
     except Exception:  # a crash of the monitor itself is never a verdict
         traceback.print_exc()
         ctx.oracle_fault("monitor crashed: " + traceback.format_exc(limit=3)[-400:])
+    finally:
+        if reaching:
+            ctx.reach = reach.stop()
     return ctx
 
 
@@ -52,6 +57,10 @@ def replay(args):
     ctx = core.Ctx(args.prop, "quick", args.seed, level=getattr(mod, "LEVEL", "exploration"),
                    replay_mode=True)
     ctx.classify = getattr(mod, "classify", None)
+    hist = rec.get("witness", {}).get("after_other_library_calls") if isinstance(rec.get("witness"), dict) else None
+    if hist:
+        from . import noise
+        noise.rerun(ctx, hist)
     mod.replay(ctx, rec)
     if ctx.violations:
         print("replay: violation reproduced (%d)" % ctx.violations)
